@@ -363,13 +363,39 @@ def check_timeout(fx, R):
 
 def check_printer(fx, R):
     """The info entry is `the printed value`: toStringInfoValue(v) streams v into an ostringstream and returns its string."""
-    fs = [f for f in fx.functions.values() if f['q'].startswith(Q + 'toStringInfoValue<')]
+    import re
+    from ..tree import const_value
+    fs = [f for f in fx.functions.values() if f['q'].startswith(Q + 'toStringInfoValue<') or (f['q'] == Q + 'toStringInfoValue' and f.get('body') is not None)]
     if not fs:
         R.undecided('T2', 'toStringInfoValue', 'no instantiation found')
-    for f in sorted(fs, key=lambda f: f['q']):
+    for f in sorted(fs, key=lambda f: f['q'] + f.get('sig', '')):
         R.used(f)
         from .C14 import stmts_sx
         st = stmts_sx(f)
+        # a printf-family formatter into a fixed buffer: the printed value survives only if the buffer holds the longest output of the format
+        pr = [x for x in walk(f['body']) if isinstance(x, dict) and x.get('k') == 'Call' and (x.get('fn') or '').split('::')[-1] in ('snprintf', 'sprintf', 'vsnprintf')]
+        if pr:
+            inst_ = '%s(%s)' % (short_fn(f['q']), ', '.join(p_['t'].get('s', '?') for p_ in f['params']))
+            c = pr[0]
+            fmt = next((a_.get('v') for a_ in c.get('args', []) if a_.get('k') == 'Str'), None)
+            size = const_value(c['args'][1]) if (c.get('fn') or '').endswith('snprintf') and len(c.get('args', [])) > 1 else None
+            mm = re.fullmatch(r'%(?:\.(\d+))?([geEG])', fmt or '')
+            argt = (f['params'][0]['t'].get('s', '') if f.get('params') else '')
+            if mm and size is not None and 'double' in argt:
+                prec = int(mm.group(1)) if mm.group(1) else 6
+                prec = max(prec, 1)
+                need = (prec + 7 if mm.group(2) in 'gG' else prec + 8) + 1       # sign, digits, point, e, exponent sign, 3 exponent digits, NUL
+                if size < need:
+                    R.violated('T2', 'toStringInfoValue(double):buffer', 'the double overload formats with "%s" into a buffer of %d bytes; a negative value with %d significant digits and a three-digit exponent '
+                               '(|v| >= 1e100 or < 1e-99, e.g. -1.23456e-300) needs %d bytes with the terminator: snprintf cuts the last exponent digit and the info entry reads as another, well-formed number '
+                               '(-1.23456e-30) - it is not the printed value of the argument' % (fmt, size, prec, need), fx.rel(c.get('loc') or f['loc']), 'E-INT')
+                elif fmt in ('%g', '%G') :
+                    R.holds('T2', inst_, 'formats with %%g (the default stream format of a double) into %d bytes, %d needed at most' % (size, need), fx.rel(f['loc']), 'E-INT')
+                else:
+                    R.undecided('T2', inst_, 'formats with "%s", which is not the default stream format' % fmt)
+            else:
+                R.undecided('T2', inst_, 'printf-style printer with format %r and buffer size %s: not decided' % (fmt, size))
+            continue
         ok = len(st) == 3 and st[0][0] == 'decl' and st[1] == ('expr', ('<<', st[0][1], 'infoValue')) and st[2] in (('return', ('.str', st[0][1])), ('return', ('new:std::basic_string<char>', ('.str', st[0][1]))))
         if ok:
             R.holds('T2', short_fn(f['q']), 'streams the value and returns the stream contents', fx.rel(f['loc']), 'E-STATE')
